@@ -273,6 +273,14 @@ class PM(pydantic.BaseModel):
     d: timedelta
 
 
+class PMD(pydantic.BaseModel):
+    """a model most of whose fields are left at their defaults by the caller"""
+    x: int
+    cur: str = "EUR"
+    n: int = 3
+    tags: list[str] = pydantic.Field(default_factory=lambda: ["new"])
+
+
 def arg_values(rng: Rng) -> list:
     """(value, independently written JSON document the consumer must receive — None = no payload)"""
     r = rng.random()
@@ -287,6 +295,8 @@ def arg_values(rng: Rng) -> list:
     out.append((DC(1, "z", date(2024, 2, 29)), {"a": 1, "b": "z", "when": "2024-02-29"}))
     out.append((PM(x=3, y=["q"], d=timedelta(seconds=1.5)), {"x": 3, "y": ["q"], "d": "PT1.5S"}))
     out.append(({"when": date(2020, 1, 1), "d": timedelta(minutes=5)}, {"when": "2020-01-01", "d": 300.0}))
+    out.append((PMD(x=1), {"x": 1, "cur": "EUR", "n": 3, "tags": ["new"]}))
+    out.append((PMD(x=2, n=3), {"x": 2, "cur": "EUR", "n": 3, "tags": ["new"]}))
     return out
 
 
